@@ -3,6 +3,7 @@ Glue for the rulebook pipeline (diff / patch / ordering): serves C01 C02 C03 C08
 -/
 import AnnetModel.Glue.Common
 import AnnetModel.Model.Api
+import AnnetModel.Spec.TestLogics
 
 namespace Annet.Glue.Rb
 open Lean Annet.Glue Annet.Rules Annet.Diff Annet.Patch
@@ -98,8 +99,9 @@ def patchH : Handler := fun j => do
   let mode := match j.getObjVal? "mode" with
     | .ok (Json.str m) => m
     | _ => "device"
-  let r := if mode == "file" then Api.fileMode runLogic job.v job.rules job.ordering job.old job.new
-           else Api.deviceMode runLogic job.v job.rules job.ordering doCommit job.old job.new
+  let lg := Annet.TestLogics.runLogicPlus
+  let r := if mode == "file" then Api.fileMode lg job.v job.rules job.ordering job.old job.new
+           else Api.deviceMode lg job.v job.rules job.ordering doCommit job.old job.new
   match r with
   | .error e => pure (pErr e)
   | .ok res => pure (Json.mkObj [("patch", ptreeToJson res.patch),
